@@ -2,6 +2,7 @@ package c03
 
 import (
 	"fmt"
+	"net"
 
 	"github.com/jcmturner/gokrb5/v8/service"
 	"github.com/jcmturner/gokrb5/v8/types"
@@ -82,4 +83,273 @@ func (e *env) configuredAddressCases() {
 	vh.Workers(len(jobs), func(i int) { jobs[i]() })
 	r.Require("cfgaddr_served_agreed", 40)
 	r.Require("cfgaddr_refused_agreed", 40)
+}
+
+// peerAddressCases: address-restricted tickets (RFC 4120 3.2.3: "the server checks that the address from which the request
+// came is in the ticket's caddr list") presented over connections of every kind: the listed address, an unlisted address of
+// the same family (a near miss: one bit off), an address of the OTHER family (IPv4-bound ticket over IPv6 and vice versa),
+// an IPv4-mapped IPv6 peer, and connections whose RemoteAddr gives the wrapper no address at all (bare IP without port as a
+// proxy middleware leaves it, "@" of a unix socket, empty, host name). The ticket lists one or two addresses of one or both
+// families, with or without a NetBIOS entry (Active Directory adds the workstation name, type 20).
+// Oracle: the reference acceptor under every reasonable reading of the peer address (the lenient side: a bare IP may be taken
+// for the address or for "unknown"; an IPv4-mapped peer for its IPv4 or its IPv6 form). Served although no reading accepts =
+// violation. Completeness is asserted only for plain IPv4 / IPv6 peers and canonical framings. The same tickets go to
+// SPNEGO.AcceptSecContext with the peer address configured through service.ClientAddress (or not at all).
+func (e *env) peerAddressCases() {
+	r := e.r
+	type peerForm struct {
+		name    string
+		unknown bool // RemoteAddr is not host:port with an IP literal
+		plain   bool // completeness is asserted
+	}
+	peerForms := []peerForm{{"v4", false, true}, {"v6", false, true}, {"v4-mapped-v6", false, false},
+		{"bare-v4", true, false}, {"bare-v6", true, false}, {"unix-at", true, false}, {"empty", true, false}, {"hostname-port", true, false}, {"word", true, false}}
+	caddrKinds := []string{"none", "v4-peer", "v4-other", "v4-other+peer", "v6-peer", "v6-other", "v6-other+peer", "both-peer", "both-other",
+		"netbios+v4-peer", "netbios+v4-other", "netbios+v6-other", "netbios-only"}
+	reps := 2
+	if vh.Thorough() {
+		reps = 24
+	}
+	var jobs []func()
+	n := 0
+	for _, fr := range []string{"init-krb5", "raw-krb5"} {
+		for _, ck := range caddrKinds {
+			for _, pf := range peerForms {
+				for rep := 0; rep < reps; rep++ {
+					et := kcrypto.Etypes[n%len(kcrypto.Etypes)]
+					n++
+					fr, ck, pf := fr, ck, pf
+					key := fmt.Sprintf("peeraddr/%s/caddr=%s/peer=%s/et=%d/%d", fr, ck, pf.name, et, rep)
+					if !mine(r, key) {
+						continue
+					}
+					jobs = append(jobs, func() {
+						rnd := vh.NewRand("c03peer", key)
+						// the addresses of this case
+						v4P := kmsg.Addr{Type: 2, Data: rnd.Bytes(4)}
+						v6P := kmsg.Addr{Type: 24, Data: append([]byte{0x20, 0x01, 0x0d, 0xb8}, rnd.Bytes(12)...)}
+						other := func(a kmsg.Addr) kmsg.Addr { // near miss (one bit off) or unrelated
+							d := append([]byte{}, a.Data...)
+							if rnd.Bool() {
+								i := rnd.Intn(len(d) * 8)
+								if a.Type == 24 && i < 32 {
+									i += 32 // stay inside 2001:db8::/32
+								}
+								d[i/8] ^= 0x80 >> uint(i%8)
+							} else {
+								for {
+									copy(d[len(d)-4:], rnd.Bytes(4))
+									if string(d) != string(a.Data) {
+										break
+									}
+								}
+							}
+							return kmsg.Addr{Type: a.Type, Data: d}
+						}
+						nb := kmsg.Addr{Type: 20, Data: []byte(fmt.Sprintf("%-15s\x00", fmt.Sprintf("WS%06X", rnd.Intn(1<<24))))}
+						var caddr []kmsg.Addr
+						switch ck {
+						case "v4-peer":
+							caddr = []kmsg.Addr{v4P}
+						case "v4-other":
+							caddr = []kmsg.Addr{other(v4P)}
+						case "v4-other+peer":
+							caddr = []kmsg.Addr{other(v4P), v4P}
+						case "v6-peer":
+							caddr = []kmsg.Addr{v6P}
+						case "v6-other":
+							caddr = []kmsg.Addr{other(v6P)}
+						case "v6-other+peer":
+							caddr = []kmsg.Addr{other(v6P), v6P}
+						case "both-peer":
+							caddr = []kmsg.Addr{v4P, v6P}
+						case "both-other":
+							caddr = []kmsg.Addr{other(v4P), other(v6P)}
+						case "netbios+v4-peer":
+							caddr = []kmsg.Addr{nb, v4P}
+						case "netbios+v4-other":
+							caddr = []kmsg.Addr{nb, other(v4P)}
+						case "netbios+v6-other":
+							caddr = []kmsg.Addr{nb, other(v6P)}
+						case "netbios-only":
+							caddr = []kmsg.Addr{nb}
+						}
+						if rnd.Bool() { // the order of the list is not significant
+							for i, j := 0, len(caddr)-1; i < j; i, j = i+1, j-1 {
+								caddr[i], caddr[j] = caddr[j], caddr[i]
+							}
+						}
+						port := fmt.Sprint(1024 + rnd.Intn(64000))
+						v4s, v6s := net.IP(v4P.Data).String(), net.IP(v6P.Data).String()
+						var remoteAddr string
+						var readings []*kmsg.Addr
+						switch pf.name {
+						case "v4":
+							remoteAddr, readings = v4s+":"+port, []*kmsg.Addr{&v4P}
+						case "v6":
+							remoteAddr, readings = "["+v6s+"]:"+port, []*kmsg.Addr{&v6P}
+						case "v4-mapped-v6":
+							m := kmsg.Addr{Type: 24, Data: append(append(make([]byte, 10), 0xff, 0xff), v4P.Data...)}
+							remoteAddr, readings = "[::ffff:"+v4s+"]:"+port, []*kmsg.Addr{&v4P, &m}
+						case "bare-v4":
+							remoteAddr, readings = v4s, []*kmsg.Addr{nil, &v4P}
+						case "bare-v6":
+							remoteAddr, readings = v6s, []*kmsg.Addr{nil, &v6P}
+						case "unix-at":
+							remoteAddr, readings = "@", []*kmsg.Addr{nil}
+						case "empty":
+							remoteAddr, readings = "", []*kmsg.Addr{nil}
+						case "hostname-port":
+							remoteAddr, readings = "client.example:"+port, []*kmsg.Addr{nil}
+						case "word":
+							remoteAddr, readings = "pipe", []*kmsg.Addr{nil}
+						}
+						mintOne := func(tag string) (hdr []string, tok, req []byte, ok bool) {
+							c := &cas{et: et, now: now0, rnd: rnd}
+							base(c, e.kt, fmt.Sprintf("%016x", vh.H64(key+tag)))
+							c.m.Tkt.CAddr = caddr
+							req, err := c.m.Build()
+							if err != nil {
+								r.Inconclusive("mint: " + err.Error())
+								return nil, nil, nil, false
+							}
+							tok = framings[framingIndex(fr)].build(&fctx{apreq: req, sess: c.m.Tkt.Key, now: now0, rnd: rnd})
+							return []string{"Negotiate " + b64(tok)}, tok, req, true
+						}
+						refUnder := func(req []byte, a *kmsg.Addr) accept.Verdict {
+							rs := e.rs
+							rs.ClientAddr = a
+							return accept.Accept(req, e.kt, rs, now0, map[string]bool{})
+						}
+						// relation of the connection to the ticket's list (counters only)
+						relation := "unlisted-same-family"
+						switch {
+						case len(caddr) == 0:
+							relation = "unbound"
+						case pf.unknown:
+							relation = "unknown-peer"
+						default:
+							fam := false
+							for _, a := range caddr {
+								for _, rd := range readings {
+									if rd != nil && a.Type == rd.Type {
+										fam = true
+										if string(a.Data) == string(rd.Data) {
+											relation = "listed"
+										}
+									}
+								}
+							}
+							if !fam {
+								relation = "other-family"
+							}
+						}
+						nonIPOnly := ck == "netbios-only"
+
+						// (1) the HTTP wrapper
+						hdr, _, req, ok := mintOne("/http")
+						if !ok {
+							return
+						}
+						var o httpObs
+						pcommon.AtVirtual(e.t, now0.Sub(pcommon.Epoch), func() { o = doHTTPFrom(e.gkt, nil, hdr, nil, &remoteAddr) })
+						accAny, accAll, dontcare := false, true, false
+						var reasons []string
+						var accV accept.Verdict
+						for _, rd := range readings {
+							v := refUnder(req, rd)
+							if v.DontCare && v.Accept {
+								dontcare = true
+							}
+							if v.Accept {
+								accAny, accV = true, v
+							} else {
+								accAll = false
+								reasons = append(reasons, v.Reasons...)
+							}
+						}
+						// (2) the acceptor API with the peer address configured by the application (readings[0]; none when unknown)
+						_, tok2, req2, ok := mintOne("/api")
+						if !ok {
+							return
+						}
+						var opts []func(*service.Settings)
+						if readings[0] != nil {
+							opts = append(opts, service.ClientAddress(types.HostAddress{AddrType: readings[0].Type, Address: readings[0].Data}))
+						}
+						var ao apiObs
+						pcommon.AtVirtual(e.t, now0.Sub(pcommon.Epoch), func() { ao = callAPI("SPNEGO.AcceptSecContext", e.gkt, opts, tok2, 1) })
+						want := refUnder(req2, readings[0])
+						r.Eval(key+"/http", true)
+						folded := false
+						d := map[string]any{"case": key, "authorization": trunc(hdr), "remote_addr": remoteAddr, "ticket_caddr": fmt.Sprintf("%v", caddr), "caddr_kind": ck, "peer_form": pf.name,
+							"relation": relation, "status": o.status, "www_authenticate": o.www, "inner_ran": o.ran, "identity": fmt.Sprintf("%+v", o.id),
+							"reference_accepts_under_some_reading_of_the_peer_address": accAny, "reference_reasons": reasons, "virtual_now": now0.Format("2006-01-02T15:04:05Z07:00")}
+						switch {
+						case o.panicked:
+							r.Violation(fmt.Sprintf("C03|panic|%s|%s", o.pw, vh.PanicClass(o.pv)), "SPNEGOKRB5Authenticate handler panicked instead of answering: "+o.pv, d)
+						case dontcare:
+							r.Inc("observe_dontcare_request")
+						case o.ran == 0 && (o.status != 401 || !challengeOK(o.www)):
+							r.Violation(fmt.Sprintf("C03|refusal-form|status=%d|challenge=%v", o.status, challengeOK(o.www)),
+								"a refused request is not answered with 401 + WWW-Authenticate: Negotiate", d)
+						case nonIPOnly && len(caddr) > 0:
+							// a list without any IP entry: RFC 4120 refuses it from every IP peer, implementations that skip the entries
+							// they cannot compare exist; the statement does not settle it
+							r.Inc(fmt.Sprintf("observe_peeraddr_caddr_without_ip_entry_ran=%d", o.ran))
+						case o.ran > 0 && !accAny:
+							// one defect = one fingerprint: the acceptor API's verdict on the same ticket goes into the detail
+							folded = ao.called && ao.success() && !want.Accept
+							d["acceptor_api_on_the_same_ticket"] = fmt.Sprintf("ok=%v status=%s reference_accept=%v", ao.ok, statusName(ao.code), want.Accept)
+							r.Violation("C03|served-without-accepted-apreq|ticket-address-restriction",
+								"the wrapped handler ran for a ticket restricted to addresses none of which is the address the request came from", d)
+						case o.ran == 0 && accAll && pf.plain:
+							r.Violation("C03|canonical-token-refused|ticket-address-restriction", "a canonical token whose ticket lists the address the request came from (or lists none) was refused", d)
+						case o.ran > 0 && (!o.id.present || !o.id.authed || o.id.user != accV.CName.String() || o.id.domain != accV.CRealm):
+							d["accepted_identity"] = accV.CName.String() + "@" + accV.CRealm
+							r.Violation("C03|identity|name-or-realm", "identity in the request context is not the accepted one", d)
+						case o.ran > 0:
+							r.Inc("peeraddr_served_agreed_" + relation)
+						case !accAny:
+							r.Inc("peeraddr_refused_agreed_" + relation)
+						default:
+							r.Inc("observe_peeraddr_refused_although_permitted_" + relation)
+						}
+
+						r.Eval(key+"/SPNEGO.AcceptSecContext", true)
+						d2 := map[string]any{"case": key, "api": "SPNEGO.AcceptSecContext", "token": fmt.Sprintf("%x", tok2), "configured_client_address": fmt.Sprintf("%v", readings[0]),
+							"ticket_caddr": fmt.Sprintf("%v", caddr), "caddr_kind": ck, "ok": ao.ok, "status": statusName(ao.code), "status_message": ao.msg,
+							"reference_accept": want.Accept, "reference_reasons": want.Reasons}
+						switch {
+						case ao.panicked:
+							r.Violation(fmt.Sprintf("C03|panic|%s|%s", ao.pw, vh.PanicClass(ao.pv)), "SPNEGO.AcceptSecContext panicked: "+ao.pv, d2)
+						case !ao.called || (want.DontCare && want.Accept):
+							r.Inc("observe_peeraddr_api_not_judged")
+						case nonIPOnly && len(caddr) > 0:
+							r.Inc(fmt.Sprintf("observe_peeraddr_api_caddr_without_ip_entry_success=%v", ao.success()))
+						case ao.success() && !want.Accept && folded:
+							r.Inc("peeraddr_api_success_reported_with_the_http_violation")
+						case ao.success() && !want.Accept:
+							r.Violation("C03|api-success-without-accepted-apreq|SPNEGO.AcceptSecContext|ticket-address-restriction",
+								"SPNEGO.AcceptSecContext reports success for a ticket restricted to addresses none of which is the configured client address (or none is configured)", d2)
+						case ao.success():
+							r.Inc("peeraddr_api_success_agreed")
+						case !want.Accept:
+							r.Inc("peeraddr_api_refused_agreed_" + relation)
+						default:
+							r.Inc("observe_peeraddr_api_refused_although_accepted")
+						}
+					})
+				}
+			}
+		}
+	}
+	vh.Workers(len(jobs), func(i int) { jobs[i]() })
+	for _, rel := range []string{"unlisted-same-family", "other-family", "unknown-peer"} {
+		r.Require("peeraddr_refused_agreed_"+rel, 20)
+		r.Require("peeraddr_api_refused_agreed_"+rel, 20)
+	}
+	r.Require("peeraddr_served_agreed_listed", 20)
+	r.Require("peeraddr_served_agreed_unbound", 10)
+	r.Require("peeraddr_api_success_agreed", 20)
 }
